@@ -990,7 +990,7 @@ func Body(args ...any) {
 			eval.ReportError("Body is set but Payload is not defined")
 			return
 		}
-		attr = &expr.AttributeExpr{References: []expr.DataType{ref.Type}}
+		attr = &expr.AttributeExpr{Type: &expr.Object{}, References: []expr.DataType{ref.Type}}
 	default:
 		eval.InvalidArgError("attribute name, user type or DSL", a)
 		return
